@@ -37,6 +37,8 @@ type Spec struct {
 	Extra  map[string]string // additional files (relative path -> content)
 	// StubFile is where stubgen writes (must be inside the exec package directory)
 	StubFile string
+	// Race builds the probe with the Go race detector.
+	Race bool
 }
 
 func repoDir() string {
@@ -250,9 +252,15 @@ func Build(s Spec, keepDir bool) (*Built, error) {
 	_ = write("main.go", driverText)
 	t1 := time.Now()
 	tmpBin := filepath.Join(dir, "probe.bin")
-	build := exec.Command("go", "build", "-o", tmpBin, ".")
+	args := []string{"build", "-o", tmpBin}
+	benv := goEnv
+	if s.Race {
+		args = append(args, "-race")
+		benv = append(append([]string{}, goEnv...), "CGO_ENABLED=1")
+	}
+	build := exec.Command("go", append(args, ".")...)
 	build.Dir = dir
-	build.Env = goEnv
+	build.Env = benv
 	var bout bytes.Buffer
 	build.Stderr = &bout
 	build.Stdout = &bout
@@ -304,9 +312,10 @@ func prune(root string, n int) {
 
 // Session is a running probe process fed with cases.
 type Session struct {
-	cmd *exec.Cmd
-	in  io.WriteCloser
-	out *json.Decoder
+	cmd    *exec.Cmd
+	in     io.WriteCloser
+	out    *json.Decoder
+	Stderr *bytes.Buffer
 }
 
 func Start(bin string) (*Session, error) {
@@ -319,11 +328,12 @@ func Start(bin string) (*Session, error) {
 	if err != nil {
 		return nil, err
 	}
-	cmd.Stderr = os.Stderr
+	var eb bytes.Buffer
+	cmd.Stderr = &eb
 	if err := cmd.Start(); err != nil {
 		return nil, err
 	}
-	return &Session{cmd: cmd, in: in, out: json.NewDecoder(outp)}, nil
+	return &Session{cmd: cmd, in: in, out: json.NewDecoder(outp), Stderr: &eb}, nil
 }
 
 // Do sends one case and decodes one result; a dead process is reported as crashed=true.
